@@ -92,7 +92,9 @@ func runC01(p *eng.Prog, r *eng.Report, tier string) {
 	c01Negotiator(c)
 }
 
-func c01NegotiateFeatures(c *cx, nf *eng.Fn, call *ast.CallExpr) {
+// c01NegotiateFeatures returns the name (p<i>) of the first-list indicator
+// parameter, if it could be identified.
+func c01NegotiateFeatures(c *cx, nf *eng.Fn, call *ast.CallExpr) (firstParam string) {
 	g := nf.Graph()
 	callPt, ok := c.site("C01.1", nf, call, "call "+negPat)
 	if !ok {
@@ -158,7 +160,6 @@ func c01NegotiateFeatures(c *cx, nf *eng.Fn, call *ast.CallExpr) {
 	idefs := g.ReachingDefsCut(dataVar, callPt, initCut)
 	nSel, nForced := 0, 0
 	var forcedAtoms []string
-	firstParam := ""
 	for _, d := range idefs {
 		switch {
 		case d.Kind == eng.DefZero:
@@ -186,7 +187,7 @@ func c01NegotiateFeatures(c *cx, nf *eng.Fn, call *ast.CallExpr) {
 					}
 				}
 				c.r.Check("C01.4", nf, "forced selection literal", "the forced selection is mandatory (req: true) and names a feature", cl.Pos(), req && feat != nil, "literal lacks req:true or feature")
-				pats := []string{"!commaok(*.cache[internal/ns.StartTLS])", "xmpp.containsStartTLS(*)#1", "eq(internal/ns.StartTLS,*.Name.Space)"}
+				pats := []string{"!commaok(*.cache[internal/ns.StartTLS])", "xmpp.containsStartTLS(*)#1", "eq(*.Name.Space,internal/ns.StartTLS)"}
 				c.dom("C01.4", nf, d.Node, "forced STARTTLS selection", pats, initRole)
 				// not secure: through State() or the state field
 				sec := g.DominatingAtoms(d.At, "!all(*,xmpp.Secure)", initRole)
@@ -426,6 +427,7 @@ func c01NegotiateFeatures(c *cx, nf *eng.Fn, call *ast.CallExpr) {
 	if firstParam != "" {
 		c.r.Note("first-list indicator of %s is parameter %s", nf.Short, firstParam)
 	}
+	return firstParam
 }
 
 // C01.8: state bits only ever get added.
